@@ -245,6 +245,9 @@ pub struct ApiRec {
     pub in_closure: bool,
     /// held set (lid, shared) of the thread when the call began
     pub held_at_begin: Vec<(Lid, bool)>,
+    /// a raw *release* panicked inside this call: the other locks the thread held exclusively
+    /// at that moment (their holds were live while that panic unwound)
+    pub live_excl_at_unlock_fault: Vec<Lid>,
 }
 
 #[derive(Default, Debug)]
@@ -732,8 +735,12 @@ impl Inner {
         if op.is_release() {
             self.locks[lid].unlock_faulted = true;
         }
+        let live: Vec<Lid> = if op.is_release() { self.held_by(t).into_iter().filter(|(l, sh)| !*sh && *l != lid).map(|(l, _)| l).collect() } else { Vec::new() };
         if let Some(r) = self.threads[t].api_stack.iter_mut().rev().find(|r| !r.in_closure) {
             r.faults.push((lid, op, when));
+            if r.live_excl_at_unlock_fault.is_empty() {
+                r.live_excl_at_unlock_fault = live;
+            }
         }
     }
 }
@@ -1135,6 +1142,7 @@ impl Sched {
             faults: Vec::new(),
             in_closure: false,
             held_at_begin: held,
+            live_excl_at_unlock_fault: Vec::new(),
         });
         idx
     }
